@@ -1543,8 +1543,11 @@ where
         }
     }
     Some(QRDecompositionTensor {
-        // This should always be Some because the input matrix has to be at least 1x1
-        q: q.unwrap(),
+        // If there was nothing to zero (a single row) no householder matrix was computed, and
+        // the input is already upper triangular, so Q is the identity matrix.
+        q: q.unwrap_or_else(|| {
+            Tensor::diagonal([(shape[0].0, rows), (shape[1].0, rows)], T::one())
+        }),
         r,
     })
 }
